@@ -440,8 +440,9 @@ Proof.
 Qed.
 
 (* what wf_b needs to know about the host functions: a host other than the empty one is displayed as a
-   non-empty text that does not start with ':' and does not end with '/'; the empty host as nothing *)
-Definition host_disp_ok (t : list N) : Prop := t <> [] /\ nnth t 0 <> Some 58 /\ ends_with_byte 47 t = false.
+   non-empty text that does not start with ':' or '@' and does not end with '/'; the empty host as nothing *)
+Definition host_disp_ok (t : list N) : Prop :=
+  t <> [] /\ nnth t 0 <> Some 58 /\ nnth t 0 <> Some 64 /\ ends_with_byte 47 t = false.
 Definition HostWf (hp hpo : list N -> result host) (hd : host -> list N) : Prop :=
   (forall s h, hp s = Ok h -> h <> HDomain [] -> host_disp_ok (hd h))
   /\ (forall s h, hpo s = Ok h -> h <> HDomain [] -> host_disp_ok (hd h))
